@@ -250,4 +250,28 @@ theorem C10_kcore_check_sound (θ k : Nat) (ps : List Pair) (gs : List (List Nat
   unfold checkKCore at h
   simpa using List.all_eq_true.mp (List.all_eq_true.mp h g hg) u hu
 
+/-- **C10 (every mode; the whole contract of the centroid mode).** In an accepted group every member is reached from the group's
+first member through pairs at or above θ whose two ends are members of the group. -/
+theorem C10_linked_sound (n θ : Nat) (ps : List Pair) (gs : List (List Nat)) (h : checkLinked n θ ps gs = true) :
+    ∀ g ∈ gs, ∃ m ∈ g, ∀ v ∈ g, Reach (linkGraph n θ ps (fun u => g.contains u)) m v := by
+  intro g hg
+  have hgl := List.all_eq_true.mp h g hg
+  unfold groupLinked at hgl
+  split at hgl
+  · cases hgl
+  · next m rest =>
+    split at hgl
+    · next S hS =>
+      refine ⟨m, List.mem_cons_self .., fun v hv => ?_⟩
+      have := List.all_eq_true.mp hgl v hv
+      exact (PV.C11.reachSet_spec hS v).mp (by simpa using this)
+    · cases hgl
+
+/-- links inside a group are links of the whole pair graph: a linked group lies inside one connected component -/
+theorem C10_linked_conn (n θ : Nat) (ps : List Pair) (g : List Nat) {m v : Nat}
+    (h : Reach (linkGraph n θ ps (fun u => g.contains u)) m v) : Conn θ ps m v := by
+  induction h with
+  | refl => exact Conn.refl _
+  | step _ he ih => exact Conn.step ih (mem_linkGraph.mp he).1
+
 end PV.C10
